@@ -78,13 +78,23 @@ def variants(row, tier):
         [("file",)],
         [(2,)],
     ]
-    if len(row["symops"]) <= 24:
-        axes[1].append(("seventy",))
     for ai, alts in enumerate(axes):
         for alt in alts:
             v = list(d)
             v[ai] = alt[0]
             out.append(tuple(v))
+    extra_pairs = []
+    if len(row["symops"]) <= 24:
+        # the medium-sized asymmetric unit: alone and together with every provenance / route / generation alternative (kept out of the
+        # rotating pair list below, whose order earlier results depend on)
+        out.append(("default", "seventy", "memory", "string", 1))
+        for a2 in (2, 3, 4):
+            for y in axes[a2]:
+                v = list(d)
+                v[1] = "seventy"
+                v[a2] = y[0]
+                extra_pairs.append(tuple(v))
+        out += extra_pairs[:4] if tier != "thorough" else extra_pairs
     pairs = []
     for (a1, alts1), (a2, alts2) in itertools.combinations(list(enumerate(axes)), 2):
         for x in alts1:
